@@ -34,7 +34,15 @@ SteepYs == { << <<0, 0>>, <<1, 54>>, <<1, 0>>, <<0 - 1, 60>>, <<3, 0 - 40>> >>,
              << <<1, 0 - 1000>>, <<1, 1000>>, <<0 - 1, 0 - 1000>>, <<1, 70>>, <<1, 0>> >> }
 Steep == {[fam |-> "steep", y |-> ys, i |-> i, mode |-> m] : ys \in SteepYs, i \in 1..5, m \in Modes}
 
-Cases == Small \cup Wide \cup Many(50) \cup Many(200) \cup Steep
+\* grids that LOOK evenly spaced from their ends - the span equals (number of gaps) x (first gap), and the last gap equals the first -
+\* but are not: any shortcut that computes the bracketing segment from the end points must still find the right one
+DeceptiveXs == { <<R(0), R(4), R(5), R(6), R(7), R(20)>>, <<R(0), R(3), R(4), R(5), R(6), R(15)>>, <<R(0 - 8), R(0 - 4), R(0 - 3), R(0 - 2), R(8)>>,
+                 <<R(0), R(2), R(3), R(8), R(9), R(10)>>, <<R(0), R(1), <<3, 2>>, R(3)>> }
+Deceptive == {[fam |-> "deceptive", x |-> xs, y |-> Ords(Len(xs), 1), t |-> t, mode |-> m] :
+                xs \in DeceptiveXs, m \in Modes,
+                t \in {R(k) : k \in (0 - 9)..21} \cup {<<2 * k + 1, 2>> : k \in (0 - 9)..20} \cup {<<5, 4>>, <<11, 4>>, <<21, 4>>}}
+
+Cases == Small \cup Wide \cup Many(50) \cup Many(200) \cup Steep \cup Deceptive
 
 Init == c \in Cases
 Next == UNCHANGED c
